@@ -1149,8 +1149,12 @@ class RustFE:
             v = msg.v[f.name]
             if f.repeat:
                 et = re.match(r'Vec<(.*)>', ft)
+                if not et:
+                    raise MissingMember('packet %s: the member of repeated field %s is no list (Rust type %s)' % (packet.name, f.name, ft))
                 vals.append(RVec([self.elem_to_lang(sem, x, et.group(1) if et else '?') for x in v]))
             else:
+                if re.match(r'Vec<', ft):
+                    raise MissingMember('packet %s: the member of plain field %s is a list (Rust type %s)' % (packet.name, f.name, ft))
                 vals.append(self.elem_to_lang(sem, v, ft))
         return RStruct(sn, vals)
 
